@@ -745,4 +745,182 @@ theorem validAxes_renorm (n : Nat) (l : List Int) (hv : ValidAxes n (some l)) :
     omega
   · simpa using this
 
+
+/-! ### var: helper lemmas -/
+
+theorem projL_inShape (p : Nat → Bool) :
+    ∀ (s : Shape) (i : Nat) (x : Idx), InShape x s → InShape (projL p true i x) (removeDimsLoop p true i s) := by
+  intro s
+  induction s with
+  | nil => intro i x h; cases x <;> simp_all [InShape, projL, removeDimsLoop]
+  | cons a t ih =>
+    intro i x h
+    cases x with
+    | nil => simp [InShape] at h
+    | cons x0 x' =>
+      simp only [InShape] at h
+      by_cases hp : p i = true
+      · simp only [projL, removeDimsLoop, hp, if_true, Bool.not_true, Bool.and_false, Bool.false_eq_true, if_false, InShape]
+        exact ⟨by omega, ih (i+1) x' h.2⟩
+      · have hp' : p i = false := by simpa using hp
+        simp only [projL, removeDimsLoop, hp', Bool.false_and, Bool.false_eq_true, if_false, InShape]
+        exact ⟨h.1, ih (i+1) x' h.2⟩
+
+/-- two source indices agree on the keepdims projection iff they agree on the squeezed projection -/
+theorem projL_true_iff_false (p : Nat → Bool) :
+    ∀ (x y : Idx) (i : Nat), x.length = y.length →
+      (projL p true i x = projL p true i y ↔ projL p false i x = projL p false i y) := by
+  intro x
+  induction x with
+  | nil => intro y i h; cases y <;> simp_all [projL]
+  | cons x0 x' ih =>
+    intro y i h
+    cases y with
+    | nil => simp at h
+    | cons y0 y' =>
+      have h' : x'.length = y'.length := by simpa using h
+      by_cases hp : p i = true
+      · simp only [projL, hp, if_true, Bool.false_eq_true, if_false, List.cons.injEq, true_and]
+        exact ih y' (i+1) h'
+      · have hp' : p i = false := by simpa using hp
+        simp only [projL, hp', Bool.false_eq_true, if_false, List.cons.injEq]
+        rw [ih y' (i+1) h']
+
+theorem foldl_optOp_some {α β : Type} (f : α → α → α) (g : β → α) (l : List β) (x : α) :
+    (l.map (fun i => some (g i))).foldl (optOp f) (some x) = some ((l.map g).foldl f x) := by
+  induction l generalizing x with
+  | nil => rfl
+  | cons b t ih => simp only [List.map_cons, List.foldl_cons, optOp]; exact ih _
+
+theorem foldFirst_optOp_some {α β : Type} (f : α → α → α) (g : β → α) (l : List β) :
+    (foldFirst (optOp f) none (l.map (fun i => some (g i)))).join = foldFirst f none (l.map g) := by
+  cases l with
+  | nil => rfl
+  | cons b t => simp only [List.map_cons, foldFirst, foldl_optOp_some]; rfl
+
+theorem foldFirst_none_cons {α : Type} (f : α → α → α) (l : List α) (h : l ≠ []) :
+    ∃ v, foldFirst f none l = some v := by
+  cases l with
+  | nil => exact absurd rfl h
+  | cons x xs => exact ⟨_, rfl⟩
+
+/-- facts about an accepted axis argument used by mean / var: the normalised axis list is accepted again, names the
+    same axis set, and `mean_divisor` is the number of elements folded into any result element -/
+theorem unwrapAxes_valid (s : Shape) (hs : Pos s) (axis : AxisArg) (hv : ValidAxes s.length axis) :
+    ∃ ax N, unwrapAxes s.length axis = some ax ∧
+      ValidAxes s.length (ax.map (fun l => l.map Int.ofNat)) ∧
+      axisSet s.length (ax.map (fun l => l.map Int.ofNat)) = axisSet s.length axis ∧
+      meanDivisor s ax = some N ∧
+      ∀ keep j, InShape j (specShape s (axisSet s.length axis) keep) →
+        (addressed s (axisSet s.length axis) keep j).length = N := by
+  cases axis with
+  | none =>
+    refine ⟨none, prod s, rfl, hv, rfl, rfl, ?_⟩
+    intro keep j hj
+    have hr := reduceReads_eq_addressed s hs none keep hv j hj
+    simp only [reduceReads, Option.some.injEq] at hr
+    rw [← hr]; simp
+  | some l =>
+    obtain ⟨hv', hset⟩ := validAxes_renorm s.length l hv
+    have hval := hv.1
+    have hlt : ∀ k ∈ l.map (normAxis s.length), k < s.length := by
+      intro k hk
+      simp only [List.mem_map] at hk
+      obtain ⟨b, hb, rfl⟩ := hk
+      exact normAxis_lt (hval b hb)
+    refine ⟨some (l.map (normAxis s.length)), _, ?_, hv', hset, meanDivisor_eq_prodSel s _ hv.2 hlt, ?_⟩
+    · simp only [unwrapAxes, normalizeAxes_eq, if_pos hval, Option.map_some]
+    · intro keep j hj
+      exact addressed_length s hs l keep hv j hj
+
+/-- `mean` on accepted arguments: shape and elements -/
+theorem mean_spec {α : Type} (add : α → α → α) (divn : α → Nat → α) (a : Arr α) (axis : AxisArg) (keep : Bool)
+    (hs : Pos a.shape) (hv : ValidAxes a.shape.length axis) :
+    ∃ v, mean add divn a axis keep = some v ∧ v.shape = specShape a.shape (axisSet a.shape.length axis) keep ∧
+      ∀ j, InShape j v.shape →
+        v.get j = (foldFirst add none ((addressed a.shape (axisSet a.shape.length axis) keep j).map a.get)).map
+                    (fun x => divn x (addressed a.shape (axisSet a.shape.length axis) keep j).length) := by
+  obtain ⟨ax, N, h1, h2, h3, h4, h5⟩ := unwrapAxes_valid a.shape hs axis hv
+  refine ⟨⟨specShape a.shape (axisSet a.shape.length axis) keep, fun j =>
+    (reduceElem add none a (ax.map (fun l => l.map Int.ofNat)) keep j).map (fun x => divn x N)⟩, ?_, rfl, ?_⟩
+  · simp only [mean, h1, h4, reduce, removeDims_eq_spec a.shape _ keep h2, h3, Option.map_some]
+  · intro j hj
+    have hj' : InShape j (specShape a.shape (axisSet a.shape.length (ax.map (fun l => l.map Int.ofNat))) keep) := by
+      rw [h3]; exact hj
+    show (reduceElem add none a (ax.map (fun l => l.map Int.ofNat)) keep j).map (fun x => divn x N) = _
+    rw [reduceElem_eq_reads, reduceReads_eq_addressed a.shape hs _ keep h2 j hj', h3, h5 keep j hj]
+    rfl
+
+
+/-- for a source index `i` of the group of `j`, the keepdims group of `i` is the group of `j` -/
+theorem addressed_true_proj (s : Shape) (R : List Nat) (keep : Bool) (j i : Idx)
+    (hi : i ∈ addressed s R keep j) :
+    addressed s R true (proj R true i) = addressed s R keep j := by
+  simp only [addressed, List.mem_filter, beq_iff_eq] at hi
+  obtain ⟨hi1, hi2⟩ := hi
+  simp only [addressed]
+  apply List.filter_congr
+  intro x hx
+  have hlen : x.length = i.length := by rw [mem_allIdx_length hx, mem_allIdx_length hi1]
+  have hp : ∀ k, k < s.length → (fun k => decide (k ∈ R)) k = decide (k ∈ R) := fun _ _ => rfl
+  rw [← hi2]
+  cases keep with
+  | true => rfl
+  | false =>
+    rw [proj_eq_loop _ R true x s.length (mem_allIdx_length hx) hp,
+        proj_eq_loop _ R true i s.length (mem_allIdx_length hi1) hp,
+        proj_eq_loop _ R false x s.length (mem_allIdx_length hx) hp,
+        proj_eq_loop _ R false i s.length (mem_allIdx_length hi1) hp]
+    have := projL_true_iff_false (fun k => decide (k ∈ R)) x i 0 hlen
+    rw [Bool.eq_iff_iff]
+    simp only [beq_iff_eq]
+    exact this
+
+theorem proj_true_inShape (s : Shape) (R : List Nat) (i : Idx) (hi : InShape i s) :
+    InShape (proj R true i) (specShape s R true) := by
+  have hp : ∀ k, k < s.length → (fun k => decide (k ∈ R)) k = decide (k ∈ R) := fun _ _ => rfl
+  rw [proj_eq_loop _ R true i s.length hi.length_eq hp, specShape_eq_loop _ R true s hp]
+  exact projL_inShape _ s 0 i hi
+
+theorem var_spec {α : Type} (add sub : α → α → α) (sqabs : α → α) (divn : α → Nat → α) (a : Arr α)
+    (axis : AxisArg) (ddof : Nat) (keep : Bool) (hs : Pos a.shape) (hv : ValidAxes a.shape.length axis) :
+    ∃ v, var add sub sqabs divn a axis ddof keep = some v ∧
+      v.shape = specShape a.shape (axisSet a.shape.length axis) keep ∧
+      ∀ j, InShape j v.shape →
+        v.get j = specVarElem add sub sqabs divn a (axisSet a.shape.length axis) keep ddof j := by
+  obtain ⟨ax, N, h1, h2, h3, h4, h5⟩ := unwrapAxes_valid a.shape hs axis hv
+  obtain ⟨m, hm1, hm2, hm3⟩ := mean_spec add divn a (ax.map (fun l => l.map Int.ofNat)) true hs h2
+  rw [h3] at hm2 hm3
+  refine ⟨⟨specShape a.shape (axisSet a.shape.length axis) keep, fun j =>
+    ((reduceElem (optOp add) none
+      (⟨a.shape, fun i => (m.get (proj (axisSet a.shape.length axis) true i)).map
+          (fun mu => sqabs (sub (a.get i) mu))⟩ : Arr (Option α))
+      (ax.map (fun l => l.map Int.ofNat)) keep j).join).map (fun x => divn x (N - ddof))⟩, ?_, rfl, ?_⟩
+  · simp only [var, h1, hm1, h4, h3, reduce]
+    rw [removeDims_eq_spec a.shape _ keep h2, h3]
+    rfl
+  · intro j hj
+    have hj' : InShape j (specShape a.shape (axisSet a.shape.length (ax.map (fun l => l.map Int.ofNat))) keep) := by
+      rw [h3]; exact hj
+    -- the group of j
+    obtain ⟨r, hr, hne⟩ := reduceReads_ne_nil a.shape hs axis keep hv j hj
+    rw [reduceReads_eq_addressed a.shape hs axis keep hv j hj, Option.some.injEq] at hr
+    obtain ⟨S, hS⟩ := foldFirst_none_cons add ((addressed a.shape (axisSet a.shape.length axis) keep j).map a.get)
+      (by rw [hr]; simpa using hne)
+    have hlen := h5 keep j hj
+    -- every element of the deviation array inside the group is defined and uses the group's mean
+    have hd : ∀ i ∈ addressed a.shape (axisSet a.shape.length axis) keep j,
+        (m.get (proj (axisSet a.shape.length axis) true i)).map (fun mu => sqabs (sub (a.get i) mu)) =
+          some (sqabs (sub (a.get i) (divn S N))) := by
+      intro i hi
+      have hiS : InShape i a.shape := mem_allIdx_inShape (List.mem_filter.1 hi).1
+      rw [hm3 _ (by rw [hm2]; exact proj_true_inShape a.shape _ i hiS),
+          addressed_true_proj a.shape _ keep j i hi, hS, hlen]
+      rfl
+    show ((reduceElem (optOp add) none _ (ax.map (fun l => l.map Int.ofNat)) keep j).join).map _ = _
+    rw [reduceElem_eq_reads, reduceReads_eq_addressed a.shape hs _ keep h2 j hj', h3]
+    simp only [Option.bind_some]
+    rw [List.map_congr_left hd, foldFirst_optOp_some]
+    simp only [specVarElem, hS, Option.bind_some, hlen]
+
 end NmVerif.Reduce
